@@ -49,6 +49,43 @@ def run(ctx):
     for d in EXTRACTORS:
         with res.guard(f"X.check_nodes_before_return({d})"):
             X.check_nodes_before_return(ctx, res, d)
+    # ---- X-ONCE: every selected hyperedge enters the extract ONCE.  add_edge on an existing key ADDS the weight, so an insertion
+    #      reached once per member of the hyperedge (a walk over the incidence lists of the selected nodes) multiplies the weights
+    res.rules["X-ONCE"] = "a selected hyperedge is inserted into the extract once (not once per member through the incidence lists): add_edge sums the weights of repeats"
+    import ast as _ast
+
+    from ..model import loc as _loc, norm as _norm, walk_no_nested as _wnn
+
+    for d in EXTRACTORS:
+        with res.guard(f"X-ONCE of {d}"):
+            xv = ctx.view(d)
+            n_ins = 0
+            for c in _wnn(xv.fi.node):
+                if not (isinstance(c, _ast.Call) and isinstance(c.func, _ast.Attribute) and c.func.attr == "add_edge" and not (isinstance(c.func.value, _ast.Name) and c.func.value.id == "self")):
+                    continue
+                n_ins += 1
+                loops = xv.enclosing_all(c, (_ast.For,))
+                per_member = None
+                for inner in loops:
+                    it = xv.inline(inner.iter, depth=1)
+                    inc = isinstance(it, _ast.Call) and isinstance(it.func, _ast.Attribute) and it.func.attr in ("get_incident_edges",) and it.args and isinstance(it.args[0], _ast.Name)
+                    inc = inc or (isinstance(it, _ast.Subscript) and isinstance(it.value, _ast.Attribute) and it.value.attr.startswith("_adj") and isinstance(it.slice, _ast.Name))
+                    if not inc:
+                        continue
+                    key = it.args[0].id if isinstance(it, _ast.Call) else it.slice.id
+                    if any(isinstance(o.target, _ast.Name) and o.target.id == key for o in loops if o is not inner):
+                        per_member = inner
+                if per_member is None:
+                    res.ok("X-ONCE", xv.fi.short, _norm(c)[:80], "once", _loc(xv.fi, c))
+                    continue
+                # a visited set that is tested and filled in the loop makes the walk visit each hyperedge once
+                seen_guard = any(isinstance(x, _ast.Call) and isinstance(x.func, _ast.Attribute) and x.func.attr == "add" and isinstance(x.func.value, _ast.Name) for x in _ast.walk(per_member)) and any(isinstance(x, _ast.Compare) and any(isinstance(o_, (_ast.In, _ast.NotIn)) for o_ in x.ops) and isinstance(x.comparators[0], _ast.Name) for i_ in _ast.walk(per_member) if isinstance(i_, _ast.If) for x in _ast.walk(i_.test))
+                if seen_guard:
+                    res.unknown("X-ONCE", xv.fi.short, _norm(c)[:80], "once", "hyperedges are reached through the incidence lists of the selected nodes under a visited-set test; that each is inserted once was not established", _loc(xv.fi, c))
+                else:
+                    res.violation("X-ONCE", xv.fi.short, _norm(c)[:80], "once", f"the hyperedge is inserted inside `for ... in {_norm(per_member.iter)[:50]}` nested in a loop over the selected nodes: a hyperedge with k selected members is inserted k times, and add_edge ADDS the weight of a repeat - the extract carries k times the source's weight", _loc(xv.fi, c))
+            if n_ins == 0:
+                res.unknown("X-ONCE", xv.fi.short, "h.add_edge(...)", "once", "no direct insertion into the extract in this function (it delegates)", _loc(xv.fi, xv.fi.node))
     with res.guard("X.check_subset_orientationctx, res, Hypergraph.subhypergraph"):
         X.check_subset_orientation(ctx, res, "Hypergraph.subhypergraph")
     with res.guard("check_deepcopyctx, res, Hypergraph.copy"):
